@@ -18,6 +18,9 @@ func c03case(c *Ctx, text string, multi, inv bool, kind string) {
 	in := map[string]interface{}{"text_hex": hexs(text), "allowMultiLine": multi, "allowInvalidIndents": inv}
 	switch f[0] {
 	case "ok":
+	case "hang":
+		c.Oracle("", fmt.Sprintf("decoding does not terminate (no result within %v)", decTimeout), in, obs, "a document or an error")
+	case "hang-skipped":
 	case "err":
 		if len(f) != 2 || f[1] == "?" {
 			c.Oracle("", "the error does not name the offending line", in, obs, "err <line>")
